@@ -87,7 +87,21 @@ func runProperty(id, repo, verif string, thorough bool, only string, dump bool) 
 	os.MkdirAll(outDir, 0o755)
 	rep := &Report{ID: id, Tier: tier, Seed: seed, cfg: &cfg, verif: verif, repo: repo, outDir: outDir, t0: t0}
 
-	reg, err := loadRegistry(repo, verif, cfg.Packages)
+	// vocabulary packages: contracts of many packages name *httpprot.Request / *httpprot.Response and the
+	// context's ghost state, whether or not the package under contract imports them
+	pkgsToLoad := append([]string(nil), cfg.Packages...)
+	for _, v := range []string{"pkg/protocols/httpprot", "pkg/context"} {
+		have := false
+		for _, p := range pkgsToLoad {
+			if p == v {
+				have = true
+			}
+		}
+		if !have {
+			pkgsToLoad = append(pkgsToLoad, v)
+		}
+	}
+	reg, err := loadRegistry(repo, verif, pkgsToLoad)
 	if err != nil {
 		rep.engineFailure("load: " + err.Error())
 		return rep.finish()
